@@ -2,9 +2,14 @@
 
 proof  : lean/Pyunicorn/Properties/C15.lean (shuffle / rank remapping are row
          permutations for every permutation / every ranked array / every number
-         of refinement steps; |z e^{i phi}| = |z| over every call history, in
-         place or copying; twin lists = definition; twin walk invariants for
-         every draw stream)
+         of refinement steps; Fourier and 'true spectrum' surrogates have the
+         original amplitude spectrum — phase multiplication over every call
+         history composed with the real DFT pair on ZMod n and its round trip;
+         twin lists = definition; twin walk invariants for every draw stream;
+         twin_surrogates as a whole; the loop-level model of the kernels —
+         np.empty work arrays re-used across series, nR bookkeeping, running
+         embedding index, index arithmetic regenerated from surrogates.py and
+         numerics.pyx by translate/gen_arith.py — equals the abstract model)
 tie    : correspondence of lean/Pyunicorn/Model/Surrogates.lean with the real
          code on the same inputs, with the random choices *recorded or fed*:
          the module globals `random` / `np` of surrogates.py and `random` of the
@@ -420,19 +425,23 @@ def run(ctx):
     nprng = np.random.RandomState(rng.randrange(2 ** 31))
     quick = ctx.tier == "quick"
     ctx.rule = ("data sets (N 1-4 series, length 1-64, odd and even; integer with ties, dyadic, "
-                "periodic, Gaussian) x generators (white noise, Fourier, AAFT, refined AAFT, twin "
+                "periodic, constant, two-level, Gaussian; float64 / float32 / int64, C / Fortran / strided, "
+                "rescaled by 2^+-30..300) x generators (white noise, Fourier, AAFT, refined AAFT, twin "
                 "surrogates of Surrogates and RecurrencePlot) x histories of 1-4 repeated / "
-                "interleaved calls on one object; twins: dimension 1-3, delay 0-3, dyadic thresholds, "
-                "min_dist 0-8; distinct = distinct (generator, data, parameters, random stream); "
+                "interleaved calls on one object incl. normalize_original_data; twins: dimension 1-5, "
+                "delay 0-6, dyadic thresholds up to 2^17, min_dist 0-40 / default / >= n, kernels on "
+                "random work arrays; RecurrencePlot: all metrics and neighbourhood rules; distinct = distinct (generator, data, parameters, random stream); "
                 "non-trivial = length >= 4 and (for twins) at least one twin pair exists")
     ctx.trusted = common.DEFAULT_TRUSTED + [
-        "numpy.fft.rfft/irfft (round trip at the non-zero, non-Nyquist bins) and numpy.random.shuffle "
-        "(applies a permutation in place): assumed, exercised numerically by the oracle on the unpatched code",
+        "numpy.fft.rfft/irfft compute, up to rounding, the real DFT pair of Lemmas/SurrogatesDFT.lean "
+        "(compared with the explicit sums on every run); numpy.random.shuffle applies a permutation in "
+        "place (recorded and checked on every case); numpy argsort returns a sorting permutation",
         "IEEE double: the products random.random()*N of the fed 20-bit dyadic draws are exact",
     ]
     ctx.assumptions = [
-        "Fourier clauses are partial: the theorem covers the spectrum handed to irfft; that "
-        "rfft(irfft(Z)) = Z off DC/Nyquist is numpy's and only exercised numerically",
+        "Fourier / true-spectrum clauses are stated on the mathematical DFT pair (round trip proved); "
+        "float rounding of numpy.fft and of the complex arithmetic is outside the theorems (relative "
+        "tolerance 1e-9 in correspondence and oracle, 2e-5 for float32 caller arrays)",
         "min_dist >= 0, dimension >= 1, delay >= 0 (negative values are outside the stated domain)",
     ]
     global HAVE_DRIVER
@@ -458,7 +467,7 @@ def run(ctx):
     # ======================================================================
     # A/B/C: white noise, Fourier, AAFT, refined AAFT — patched correspondence
     # ======================================================================
-    ncase = 400 if quick else 3000
+    ncase = 800 if quick else 5000
     struct_bad, perm_bad = [], []
     sreqs, simpl = [], []        # float correspondence (refinement-loop spectrum)
     for c in range(ncase):
@@ -609,7 +618,7 @@ def run(ctx):
     # ======================================================================
     # D: twins of Surrogates — kernels and method, fed draw stream
     # ======================================================================
-    ntw = 300 if quick else 3000
+    ntw = 600 if quick else 5000
     tw_cases = []
     for c in range(ntw):
         kind, data, tags = gen_data(rng, nprng, quick,
@@ -721,7 +730,7 @@ def run(ctx):
     # ======================================================================
     # E: RecurrencePlot.twins / twin_surrogates
     # ======================================================================
-    nrp = 200 if quick else 2000
+    nrp = 400 if quick else 3000
     for c in range(nrp):
         n = rng.choice([2, 3, 5, 8, 9, 12, 16, 21] if quick else [2, 3, 5, 8, 9, 12, 16, 21, 32, 40])
         ts, kind, dim, tau, kw, variant = gen_rp(rng, n)
@@ -940,7 +949,7 @@ def check_spectrum(ctx, name, out, data, replay, bins="inner"):
 
 
 def oracle(ctx, Surrogates, RecurrencePlot, rng, nprng, quick):
-    nor = 500 if quick else 5000
+    nor = 1000 if quick else 8000
     for c in range(nor):
         kind, data, tags = gen_data(rng, nprng, quick,
                                     kinds=("int", "dyadic", "float", "float", "periodic",
@@ -970,7 +979,7 @@ def oracle(ctx, Surrogates, RecurrencePlot, rng, nprng, quick):
             hist.append(g)
             if g == "normalize":
                 # the documented mutator: from now on the guarantees refer to the normalised data
-                with quiet():
+                with quiet(), np.errstate(all="ignore"):
                     s.normalize_original_data()
                 pristine = s.original_data.copy()
                 ctx.count("oracle:normalize")
@@ -1078,7 +1087,7 @@ def oracle(ctx, Surrogates, RecurrencePlot, rng, nprng, quick):
         ctx.case(("oracle", data.tobytes().hex(), seed, tuple(hist)), n >= 4)
 
     # ---- RecurrencePlot twins on the unpatched code ---------------------------
-    nrp = 200 if quick else 2000
+    nrp = 400 if quick else 3000
     for c in range(nrp):
         n = rng.choice([2, 3, 5, 8, 13, 21, 30])
         ts, kind, dim, tau, kw, variant = gen_rp(rng, n, floats=nprng)
